@@ -303,6 +303,10 @@ func runOne(p Property, c Case) (res Result) {
 				map[string]any{"case": c.ID(), "panic": fmt.Sprint(rec), "stack": trimStack(st)})
 		}
 	}()
+	// aid for measuring what the generated part of a check catches on its own (seeded changes); never set by ./check
+	if c.Directed != "" && os.Getenv("VERIF_SKIP_DIRECTED") != "" {
+		return Result{Discarded: "skipped: VERIF_SKIP_DIRECTED"}
+	}
 	return p.Run(c)
 }
 
